@@ -48,7 +48,7 @@ OBS = ['Observation/subarray', 'Observation/spw', 'Observation/target', 'Observa
        'Observation/spw_index', 'Observation/target_index', 'Observation/scan_state', 'Observation/label',
        'Observation/scan_index', 'Observation/compscan_index']
 STATES_RAW = ['slew', 'track', 'scan', 'stop']
-SHORTS = ['f', 's', 'i']
+SHORTS = ['f', 's', 'i', 'b']
 
 
 # ---------------------------------------------------------------------------------------------------------------
@@ -86,6 +86,15 @@ def gen_case(rng):
     dts = [2.0] * k
     ants = [('m000', 'm001')] * k
     cfv = [0] * k
+    var = [{} for _ in range(k)]
+    h5ok = fmts[0] != 'v1' and not mixed
+
+    def some_parts():
+        """a non-empty proper subset of the parts"""
+        while True:
+            pick = [rng.random() < 0.5 for _ in range(k)]
+            if any(pick) and not all(pick):
+                return [i for i in range(k) if pick[i]]
     if k >= 2 and special < 0.05:
         kind = 'tie'
         starts[1] = starts[0]
@@ -95,12 +104,37 @@ def gen_case(rng):
     elif k >= 2 and special < 0.11:
         kind = 'period'
         dts[rng.randrange(k)] = 4.0
-    elif k >= 2 and special < 0.18 and not mixed:
+    elif k >= 2 and special < 0.17 and not mixed:
         kind = 'subarray'
         ants[rng.randrange(k)] = ('m000', 'm062')
-    elif k >= 2 and special < 0.25 and not mixed and fmts[0] not in ('v1', 'v2'):
+    elif k >= 2 and special < 0.23 and not mixed and fmts[0] not in ('v1', 'v2'):
         kind = 'spw'
         cfv[rng.randrange(k)] = 1
+    elif k >= 2 and special < 0.30 and h5ok:
+        # the same antennas and the same correlation products, listed in another order: another subarray
+        kind = 'subperm'
+        for i in some_parts():
+            var[i]['perm'] = rng.choice([1, 2, 3])
+    elif k >= 2 and special < 0.34 and h5ok:
+        # the same antenna names and products, one antenna at another position: another subarray
+        kind = 'subdesc'
+        for i in some_parts():
+            var[i]['antdesc'] = 1
+    elif k >= 2 and special < 0.40 and h5ok:
+        # the same centre frequency and channel count; channel width / product / band differ: another spectral window
+        kind = 'spwvar'
+        which = rng.choice([v for v in ('bw', 'prod', 'band') if fmts[0] in c19parts.VARIANTS[v]])
+        for i in some_parts():
+            var[i][which] = 1
+    elif k >= 2 and special < 0.46 and h5ok:
+        # several subarrays AND several spectral windows (not every combination has dumps)
+        kind = 'multi'
+        subv = [{}, {'perm': 1}, {'perm': 2}, {'antdesc': 1}]
+        spwv = [{}, {'bw': 1}] + ([{'prod': 1}, {'band': 1}] if fmts[0] == 'v4' else [])
+        while True:
+            var = [dict(rng.choice(subv), **rng.choice(spwv)) for _ in range(k)]
+            if len({repr(sorted(v.items())) for v in var}) > 1:
+                break
     pool = rng.sample(range(len(c19parts.TARGETS)), rng.randint(2, 4))
     present = {s: [rng.random() < 0.6 for _ in range(k)] for s in SHORTS}
     arr_present = [rng.random() < 0.5 for _ in range(k)] if rng.random() < 0.2 else [False] * k
@@ -118,11 +152,15 @@ def gen_case(rng):
             sens['s'] = ('s', gen_events(rng, T, ['', 'x', 'y', 'z'], first=rng.random() < 0.8, maxn=2) or [(0, 'x')])
         if present['i'][i]:
             sens['i'] = ('i', gen_events(rng, T, [-1, 0, 3, 5], first=rng.random() < 0.8, maxn=2) or [(0, 3)])
+        if present['b'][i]:
+            sens['b'] = ('b', gen_events(rng, T, [True, False], first=rng.random() < 0.8, maxn=2) or [(0, True)])
         spec = dict(fmt=fmts[i], T=T, start=starts[i], dt=dts[i], ants=list(ants[i]), F=F, cfv=cfv[i],
                     acts=gen_events(rng, T, STATES_RAW, maxn=3), targets=gen_events(rng, T, pool, maxn=2),
                     labels=gen_events(rng, T, c02.LABELS[1:] + [''], first=rng.random() < 0.7, maxn=2),
                     sens=sens, arrs=({'a': [rng.randint(-3, 9) for _ in range(T)]} if arr_present[i] else {}),
                     seed=rng.randrange(1000))
+        if var[i]:
+            spec['var'] = var[i]
         if mixed:
             # v3 files of the fixture writer carry 10 products for two antennas: give the v4 parts the same ones
             inputs = [a + p for a in spec['ants'] for p in 'hv']
@@ -164,13 +202,25 @@ def vid(ids, v):
     return 5000 + Ids.gid(ids.strs, 'obj:' + str(desc if desc is not None else v))
 
 
+def sub_key(s):
+    """What makes a subarray, read from its public attributes (NOT through katdal's own comparison): the antennas
+    (full descriptions, in order) and the correlation products in order (= the columns of the data)."""
+    return (tuple(str(a.description) for a in s.ants), tuple((str(a), str(b)) for a, b in s.corr_products))
+
+
+def spw_key(w):
+    """What makes a spectral window: every public attribute."""
+    return (float(w.centre_freq), float(w.channel_width), int(w.num_chans), int(w.sideband), str(w.band),
+            str(w.product), float(w.bandwidth))
+
+
 def obs_vid(ids, name, v):
     if name in ('Observation/target',):
         return Ids.gid(ids.tdesc, v.description)
     if name == 'Observation/subarray':
-        return Ids.gid(ids.sub, v._description)
+        return Ids.gid(ids.sub, sub_key(v))
     if name == 'Observation/spw':
-        return Ids.gid(ids.spw, v._description)
+        return Ids.gid(ids.spw, spw_key(v))
     if name == 'Observation/scan_state':
         return c02.STATES.index(str(v))
     if name == 'Observation/label':
@@ -327,8 +377,8 @@ def stage_open(cs, parts, twins_info, c, exc, out, names, how):
     if [int(x) for x in c._segments] != m_segs or its != m_ts:
         cs.disagree('stage=open;what=segments_vs_model', [int(x) for x in c._segments], m_segs, '_segments / timestamps differ from the model', kind='tie')
     # merged lists
-    got = dict(subs=[Ids.gid(ids.sub, s._description) for s in c.subarrays],
-               spws=[Ids.gid(ids.spw, s._description) for s in c.spectral_windows],
+    got = dict(subs=[Ids.gid(ids.sub, sub_key(s)) for s in c.subarrays],
+               spws=[Ids.gid(ids.spw, spw_key(s)) for s in c.spectral_windows],
                cat=[Ids.gid(ids.tdesc, t.description) for t in c.catalogue.targets])
     for key, sv, mv, text in (('subs', s_subs, m_subs, 'subarrays'), ('spws', s_spws, m_spws, 'spectral windows'),
                               ('cat', s_cat, m_cat, 'targets')):
@@ -824,6 +874,147 @@ def check_selected_sensors(cs, d, twins_sorted, tws, names, at):
 
 
 # ---------------------------------------------------------------------------------------------------------------
+# stage 3b: several subarrays / spectral windows: select(subarray=s, spw=w, **criteria) against the parts alone
+
+def multi_criteria(rng, tw, T):
+    """criteria that need no index translation (names, masks over products / channels of the part's own subarray)"""
+    cps = [(str(a), str(b)) for a, b in tw.subarrays[0].corr_products]
+    B, F = len(cps), int(tw.spectral_windows[0].num_chans)
+    inputs = sorted({x for cp in cps for x in cp})
+    ants = sorted({x[:-1] for x in inputs})
+    freqs = np.asarray(tw.spectral_windows[0].channel_freqs, dtype=float)
+    cw = float(tw.spectral_windows[0].channel_width)
+    pool = [dict(pol=rng.choice(['hh', 'vv', 'hv', 'vh', 'h', 'v'])), dict(pol=rng.sample(['hh', 'vv', 'hv', 'vh'], 2)),
+            dict(corrprods=rng.choice(['cross', 'auto'])), dict(corrprods=sorted(rng.sample(range(B), min(B, 3)))),
+            dict(corrprods=[bool(rng.random() < 0.5) for _ in range(B)]), dict(corrprods=[list(rng.choice(cps))]),
+            dict(ants=rng.choice(ants)), dict(ants='~' + rng.choice(ants)), dict(inputs=rng.sample(inputs, min(3, len(inputs)))),
+            dict(channels=slice(rng.randrange(F), None)), dict(channels=[rng.randrange(F)]),
+            dict(freqrange=(float(freqs.min()) + cw * rng.choice([-1, 0.6, 1]), float(freqs.max()) + cw)),
+            dict(targets=rng.choice(['A', 'B', 'Cee', 'Dd', 'nope'])), dict(scans=rng.choice(['track', '~slew', 'scan'])),
+            dict(compscans=rng.choice(['track', 'cal', '~raster'])), dict(target_tags=rng.choice(['gaincal', 'target', 'bpcal']))]
+    out = [{}]
+    for _ in range(2):
+        kw = {}
+        for x in rng.sample(pool, rng.randint(1, 3)):
+            kw.update(x)
+        out.append(kw)
+    if rng.random() < 0.5:
+        out[-1]['dumps'] = [bool(rng.random() < 0.7) for _ in range(T)]
+    return out
+
+
+def stage_multi(cs, c, twins, arrays, sorted_idx, rng, mkeeps=None):
+    ctx = cs.ctx
+    segs = [int(x) for x in c._segments]
+    T = segs[-1]
+    tws = [twins[i] for i in sorted_idx]
+    arrs = [arrays[i] for i in sorted_idx]
+    same_shape = len({a['vis'].shape[1:] for a in arrs}) == 1
+    subs, spws = [], []
+    for tw in tws:
+        for k, lst in ((sub_key(tw.subarrays[0]), subs), (spw_key(tw.spectral_windows[0]), spws)):
+            if k not in lst:
+                lst.append(k)
+    where = [(subs.index(sub_key(tw.subarrays[0])), spws.index(spw_key(tw.spectral_windows[0]))) for tw in tws]
+    nS, nW = len(c.subarrays), len(c.spectral_windows)
+    if (nS, nW) != (len(subs), len(spws)):
+        return          # reported by stage_open
+    for what, kw in (('subarray', dict(subarray=nS)), ('spw', dict(spw=nW))):
+        try:
+            c.select(**kw)
+            cs.disagree('stage=multi;what=%s_out_of_range_accepted' % what, 'selected', 'IndexError',
+                        'a %s index beyond the merged list is accepted' % what, spec='IndexError', kwargs=repr(kw))
+        except IndexError:
+            pass
+        except Exception as e:      # noqa: BLE001
+            cs.disagree('stage=multi;what=%s_out_of_range_raises' % what, repr(e), 'IndexError',
+                        'a %s index beyond the merged list does not raise IndexError' % what, spec='IndexError', kwargs=repr(kw))
+    for s in range(nS):
+        for w in range(nW):
+            members = [pi for pi, sw in enumerate(where) if sw == (s, w)]
+            ref = tws[members[0]] if members else tws[0]
+            for kw in (multi_criteria(rng, ref, T) if members else [{}]):
+                keys = '+'.join(sorted(kw)) or '-'
+                at = dict(subarray=s, spw=w, kwargs=repr(kw))
+                try:
+                    with warnings.catch_warnings():
+                        warnings.simplefilter('ignore')
+                        c.select()
+                        c.select(subarray=s, spw=w, **kw)
+                except Exception as e:      # noqa: BLE001
+                    cs.disagree('stage=multi;keys=%s;what=raises' % keys, repr(e), None,
+                                'select(subarray=, spw=, ...) on the whole raised', **at)
+                    continue
+                ctx.traces_validated += 1
+                ctx.count('multi_select_calls')
+                got = observe_masks(c)
+                if mkeeps is not None and not kw:
+                    if got[0] != mkeeps[0][s][w]:
+                        cs.disagree('stage=multi;keys=-;what=time_mask', got[0], mkeeps[0][s][w],
+                                    'select(subarray=s, spw=w) does not keep exactly the dumps of that subarray and window',
+                                    spec=mkeeps[1][s][w], **at)
+                        continue
+                    if mkeeps[0][s][w] != mkeeps[1][s][w]:
+                        cs.disagree('stage=multi;keys=-;what=model_vs_spec', mkeeps[0][s][w], mkeeps[1][s][w],
+                                    'model differs from its spec', kind='tie', **at)
+                tks, ok = [], True
+                for pi, tw in enumerate(tws):
+                    seg_mask = got[0][segs[pi]:segs[pi + 1]]
+                    part_masks = observe_masks(c.datasets[pi])
+                    if part_masks != [seg_mask, got[1], got[2]]:
+                        cs.disagree('stage=multi;keys=%s;what=part_view' % keys, part_masks, [seg_mask, got[1], got[2]],
+                                    'a part does not hold its slice of the global masks', part=pi, **at)
+                        ok = False
+                        break
+                    if pi not in members:
+                        exp_t = [0] * len(seg_mask)
+                        if seg_mask != exp_t:
+                            cs.disagree('stage=multi;keys=%s;what=foreign_part_selected' % keys, seg_mask, None,
+                                        'dumps of a part of ANOTHER subarray / spectral window are selected', spec=exp_t, part=pi, **at)
+                            ok = False
+                        tks.append(seg_mask)
+                        continue
+                    tkw = dict(kw)
+                    if 'dumps' in tkw:
+                        tkw['dumps'] = np.array(tkw['dumps'][segs[pi]:segs[pi + 1]], dtype=bool)
+                    with warnings.catch_warnings():
+                        warnings.simplefilter('ignore')
+                        tw.select()
+                        tw.select(**tkw)
+                    twm = observe_masks(tw)
+                    tks.append(seg_mask)
+                    if twm != [seg_mask, got[1], got[2]]:
+                        dims = ''.join(x for x, a, b in zip('TFB', twm, [seg_mask, got[1], got[2]]) if a != b)
+                        cs.disagree('stage=multi;keys=%s;what=part_differs_from_standalone:%s' % (keys, dims), [seg_mask, got[1], got[2]], None,
+                                    'the whole selects in a part something else than the same criteria select on the part alone',
+                                    spec=twm, part=pi, **at)
+                        ok = False
+                        continue
+                    pub = dict(corr_products=[(str(a), str(b)) for a, b in c.corr_products] == [(str(a), str(b)) for a, b in tw.corr_products],
+                               channel_freqs=nan_eq(c.channel_freqs, tw.channel_freqs), channel_width=c.channel_width == tw.channel_width,
+                               ants=[a.description for a in c.ants] == [a.description for a in tw.ants],
+                               inputs=list(c.inputs) == list(tw.inputs))
+                    badk = sorted(k for k, v in pub.items() if not v)
+                    if badk:
+                        cs.disagree('stage=multi;keys=%s;what=public:%s' % (keys, ','.join(badk)),
+                                    {k: np.asarray(getattr(c, k)).tolist() if k != 'ants' else [a.description for a in c.ants] for k in badk}, None,
+                                    'the whole labels the columns / channels of a part differently from the part itself',
+                                    spec={k: np.asarray(getattr(tw, k)).tolist() if k != 'ants' else [a.description for a in tw.ants] for k in badk},
+                                    part=pi, **at)
+                        ok = False
+                ctx.note_case((cs.cseed, 'multi', s, w, keys), nontrivial=len(members) >= 1 and len(tws) >= 2,
+                              sample=dict(fmt=cs.fmt, kind=cs.gen['kind'], subarray=s, spw=w, members=members, kwargs=repr(kw)))
+                if ok and same_shape and members and any(got[1]) and any(got[2]):
+                    full_arrays(cs, c, arrs, (tks, got[1], got[2]), 'after=multi')
+    with warnings.catch_warnings():
+        warnings.simplefilter('ignore')
+        c.select()
+        c.select(subarray=0, spw=0)
+        for tw in tws:
+            tw.select()
+
+
+# ---------------------------------------------------------------------------------------------------------------
 # one case
 
 def run_case(ctx, cseed, gen=None, stages=('open', 'data', 'select', 'scans', 'order')):
@@ -897,6 +1088,8 @@ def run_case(ctx, cseed, gen=None, stages=('open', 'data', 'select', 'scans', 'o
                 ob = stage_select(cs, c, parts, twins, infos, arrays, sorted_idx, wp_sorted, names, ctx.scale(2, 4))
             if 'scans' in stages and single and cs.bad == 0 and ob is not None:
                 stage_scans(cs, ob, drng)
+            if 'select' in stages and not single and cs.bad == 0:
+                stage_multi(cs, c, twins, arrays, sorted_idx, drng)
     finally:
         for p in parts:
             p.close()
@@ -915,8 +1108,8 @@ def expand_index(w):
 def summary(c, ids, names):
     """Everything the property constrains about an opened concatenation, canonical (for the input-order comparison)."""
     out = dict(ts=np.asarray(c.sensor.timestamps[:]).tolist(), shape=[int(x) for x in c.shape],
-               cat=[t.description for t in c.catalogue.targets], subs=[s._description for s in c.subarrays],
-               spws=[s._description for s in c.spectral_windows], dumps=[int(x) for x in c.dumps])
+               cat=[t.description for t in c.catalogue.targets], subs=[sub_key(s) for s in c.subarrays],
+               spws=[spw_key(s) for s in c.spectral_windows], dumps=[int(x) for x in c.dumps])
     for n in OBS:
         out[n] = cd_wire(c.sensor.get(n), lambda v, n=n: obs_vid(ids, n, v))
     for n in names:
@@ -987,7 +1180,8 @@ def run(ctx):
         cs = run_case(ctx, cseed)
         kinds[cs.gen['kind']] = kinds.get(cs.gen['kind'], 0) + 1
     # every run meets every special kind of case a few times, whatever the seed
-    quota = {'period': ctx.scale(4, 40), 'tie': ctx.scale(2, 20), 'subarray': ctx.scale(3, 30), 'spw': ctx.scale(3, 30)}
+    quota = {'period': ctx.scale(4, 40), 'tie': ctx.scale(2, 20), 'subarray': ctx.scale(2, 30), 'spw': ctx.scale(2, 30),
+             'subperm': ctx.scale(3, 30), 'subdesc': ctx.scale(2, 20), 'spwvar': ctx.scale(3, 30), 'multi': ctx.scale(3, 40)}
     tries = 0
     while any(kinds.get(k, 0) < q for k, q in quota.items()) and tries < 20000:
         tries += 1
